@@ -69,7 +69,7 @@ U_ARITH = ["neg", "smul:r", "smul:c", "sdiv", "rdiv", "sadd", "rsadd", "ssub", "
 U_LIN = ["mat", "diag", "real", "imag", "conj", "sum", "integrate", "vdotc"]
 U_MULTI = ["dl:u", "get:u", "get:v", "einsum", "einsum0", "jaxS", "jaxM"]
 U_ENERGY = ["gauss_d", "gauss_icov", "gauss_d_icov", "poisson", "invgamma", "studentt", "bernoulli", "sqnorm",
-            "quadform", "vcge", "esmul", "ham"]
+            "quadform", "vcge", "esmul", "ham", "ham0"]
 BINARY = ["add", "sub", "mul", "div", "pow", "vdot", "outer", "pair", "madd", "mmul", "eadd"]
 WRAPPERS = ["pre:exp", "pre:tanh"]
 
@@ -361,6 +361,13 @@ def evaluate(case, localise=True):
                     fails.append(Fail("value", "op", "op(x) differs from reference (%s)" % _md(v, ref["val"])))
                 for wm in (False, True):
                     lin = op(ift.Linearization.make_var(x, wm))
+                    # history: a LATER evaluation of the same operator object at another point must not change
+                    # the Linearization obtained before (no linearisation point may live on the operator)
+                    try:
+                        op(ift.Linearization.make_var(0.75 * x, wm))
+                        stats["interleaved"] = stats.get("interleaved", 0) + 1
+                    except Exception:      # noqa  (0.75 x may lie outside the operator's domain of definition)
+                        pass
                     _check_lin(E, X, lin, "op", wm, ref, fails, stats, do_adjoint=not wm)
         except Exception as e:      # noqa
             import traceback
@@ -383,6 +390,11 @@ def evaluate(case, localise=True):
     try:
         for wm in ((False, True) if M is not None else (False,)):
             lin = X.lin_eval(t, E, ift.Linearization.make_var(x, wm))
+            try:
+                X.lin_eval(t, E, ift.Linearization.make_var(0.75 * x, wm))
+                stats["interleaved"] = stats.get("interleaved", 0) + 1
+            except Exception:      # noqa
+                pass
             _check_lin(E, X, lin, "lin", wm, ref, fails, stats, do_adjoint=not wm)
     except Exception as e:      # noqa
         import traceback
